@@ -608,6 +608,24 @@ impl World {
         Some(self.process_claimed(new_key.into(), value))
     }
 
+    /// Directed claim without running the task: the state a daemon leaves
+    /// behind when it is killed while that task is being executed.
+    pub fn claim_only(&self, pending_key: &str) -> bool {
+        let pending = Ident::from_str("pending").unwrap();
+        let running = Ident::from_str("running").unwrap();
+        let Ok(key) = Ident::from_str(pending_key) else { return false };
+        let Some((_, name)) = pending_key.split_once('-') else { return false };
+        let new_key_s = format!("{}-{}", self.queue_now_ms(), name);
+        let Ok(new_key) = Ident::from_str(&new_key_s) else { return false };
+        self.tasks_kv.execute(None, |kv| {
+            let v: Option<Value> = kv.get(Some(pending), key)?;
+            if v.is_some() {
+                kv.move_value(Some(pending), key, Some(running), new_key)?;
+            }
+            Ok(v.is_some())
+        }).unwrap_or(false)
+    }
+
     /// Runs due tasks until none is due or `limit` tasks ran.
     pub fn pump(&mut self, limit: usize) -> Vec<TaskRun> {
         let mut runs = vec![];
